@@ -9,16 +9,16 @@ import "fmt"
 // are free.
 
 type Explorer struct {
-	Bound    int // maximum number of deviations per execution
+	Bound int // maximum number of deviations per execution
 	// FreeSwitchCost is the cost of a non-default choice at a point where the running thread cannot
 	// continue (blocked or finished).  0 (default) = such switches are free, as in CHESS-style
 	// preemption bounding; 1 = every departure from the canonical schedule counts, which keeps
 	// programs with many mostly-blocked threads tractable (the bound then limits all deviations).
 	FreeSwitchCost int
-	MaxSteps int
-	MaxExecs int64 // 0 = unlimited
-	Stop     func() bool
-	Body     func()
+	MaxSteps       int
+	MaxExecs       int64 // 0 = unlimited
+	Stop           func() bool
+	Body           func()
 	// Check is called after every execution; returning false stops the exploration.
 	Check func(r Result) bool
 
@@ -32,6 +32,7 @@ type Explorer struct {
 	Complete   bool
 }
 
+//go:norace
 func (e *Explorer) cost(r *Result, i, alt int) int {
 	// alternative alt (>0) at point i
 	if r.Kinds[i] == 'c' {
@@ -47,11 +48,14 @@ func (e *Explorer) cost(r *Result, i, alt int) int {
 }
 
 // Run explores everything within Bound. Returns false if it was stopped early.
+//
+//go:norace
 func (e *Explorer) Run() bool {
 	e.Complete = true
 	return e.explore(nil, 0)
 }
 
+//go:norace
 func (e *Explorer) explore(prefix []int, used int) bool {
 	if (e.Stop != nil && e.Stop()) || (e.MaxExecs > 0 && e.Execs >= e.MaxExecs) {
 		e.Complete = false
@@ -92,6 +96,7 @@ func (e *Explorer) explore(prefix []int, used int) bool {
 	return true
 }
 
+//go:norace
 func sameInts(a, b []int) bool {
 	if len(a) != len(b) {
 		return false
@@ -104,6 +109,7 @@ func sameInts(a, b []int) bool {
 	return true
 }
 
+//go:norace
 func sameStrs(a, b []string) bool {
 	if len(a) != len(b) {
 		return false
